@@ -24,6 +24,7 @@ class Shadow:
         self.kids = {("G", 0): []}
         self.dele = {("G", 0): True}
         self.removed = []  # keys removed (candidates for identifier re-use)
+        self.tainted = set()  # keys whose fate a raised removal left to the code: never re-used, never operands
         self.next = 1
 
     def live(self, kinds="GOD"):
@@ -68,7 +69,7 @@ def gen_history(rng, length, opts=None):
         p = parent if parent is not None else rng.choice(cands)
         n = None
         if reuse:
-            old = [k for k in sh.removed if k[0] == kind and k not in sh.par]
+            old = [k for k in sh.removed if k[0] == kind and k not in sh.par and k not in sh.tainted]
             if old:
                 n = rng.choice(old)[1]
         if n is None:
@@ -142,6 +143,7 @@ def gen_history(rng, length, opts=None):
 def _partial(sh, e):
     """remove_entity raised part-way: which children went is decided by the code; stop using that subtree as operands."""
     for x in sh.subtree(e):
+        sh.tainted.add(x)
         if x != e:
             sh.par.pop(x, None)
             sh.kids.pop(x, None)
